@@ -137,6 +137,8 @@ def run(chk):
                         "spec-state env resources (harness/internal/sysdefs/raftkvs.go) implement the ten mapping macros of raftkvs.tla; every state they produce is validated against raftkvs.tla",
                         "MaxTerm/MaxCommitIndex are model-checking constraints only; executions are not bounded by them"]
     chk.gaps.append("real bootstrap (relaxed mailboxes, timers, shared-variable manager) is not driven by this check; the resources are covered by C06/C07/C19")
+    chk.gaps.append("a defect whose first wrong step keeps every stated invariant (e.g. committing an old-term entry, Raft figure 8) is decided by C02's step conformance; "
+                    "neither seeded walks nor 29 M TLC-simulated states reach a state in which the look-ahead oracle or the invariants expose it (DESIGN 12.7)")
     return chk.finish(rule="seeded adversarial executions of the seven generated raftkvs archetypes (1-5 servers, 1-3 clients, minority crashes, per-link FIFO) "
                            "validated step by step by TLC against raftkvs.tla with the Raft invariants; TLC exhaustive/simulation of RaftFIFO.tla; guided replay of TLC behaviours")
 
